@@ -27,7 +27,7 @@ class C20(object):
     assumptions = ["variable names do not collide with the template's own identifiers (STEP, main, err, cnt, ...)",
                    'exogenous variables are lists/tuples/list expressions (the template slices them)',
                    'tolerance line 1e-6..1e-9, default cap 400 of the template']
-    required_counters = ('module.ran', 'module.ran.with_variable_T_next_to_t', 'equations_judged', 'vs_inprocess.compared', 'header.judged',
+    required_counters = ('module.ran', 'module.ran.with_variable_T_next_to_t', 'module.ran.with_own_time_variable_and_lagged_step_counter', 'equations_judged', 'vs_inprocess.compared', 'header.judged',
                          'module.without_user_time', 'generator.reused', 'bundled.ran')
 
     def n_cases(self, tier):
@@ -62,6 +62,10 @@ class C20(object):
             # textbook notation: a variable T (taxes) next to the time axis t - names that differ only by case
             case['text'] = 'T = 0.25*%s + 1.0\nK_cap = 0.5*T\n' % xs[0] + case['text']
             case['case_variant_of_time_axis'] = True
+        if idx % 4 == 3 and spec['time'] is None and 't' not in case['text'].split('MaxTime')[0].replace('\n', ' ').split():
+            # the user's own time variable (not built on k) while the step counter k is used only through a lag
+            case['text'] = 't = LAG_tt + 0.25\nLAG_tt = t(k-1)\nLAG_kk = k(k-1)\nuk_v = 0.5*LAG_kk + 1.0\n' + case['text']
+            case['own_time_and_lagged_k'] = True
         if case['reuse'] == 'other_block_first':
             other = G.gen_affine(rng, rho=0.5, tol=1e-8, maxtime=rng.randint(1, 4), ics=False)
             for e in other['exos']:
@@ -177,6 +181,8 @@ class C20(object):
             rec.count('module.ran')
             if case.get('case_variant_of_time_axis'):
                 rec.count('module.ran.with_variable_T_next_to_t')
+            if case.get('own_time_and_lagged_k'):
+                rec.count('module.ran.with_own_time_variable_and_lagged_step_counter')
             if not spec['time']:
                 rec.count('module.without_user_time')
             # collect the module's series
@@ -191,9 +197,9 @@ class C20(object):
                 if len(series[n]) != T + 1:
                     rec.violate('module_series_length', {'var': n, 'len': len(series[n]), 'horizon': T})
                     return self.done(rec, shape, True)
+            series['k'] = [float(i) for i in range(T + 1)]
             for n, src in blk['lag']:
                 series[n] = [0.0] + series[src][:-1]      # lags from its own previous period
-            series['k'] = [float(i) for i in range(T + 1)]
             for e in spec['exos']:
                 if series[e['name']] != list(e['values'][:T + 1]):
                     rec.violate('module_exogenous_not_supplied', {'var': e['name'], 'got': series[e['name']][:6]})
